@@ -186,7 +186,32 @@ def run_case(case):
         fc = U.spec_faces(s)
         mesh = U.make_mesh(s)
         _check_mesh(s["cls"], mesh, fc, res, U.spec_id(s))
-        # the constructor must not keep a reference that lets the caller's array alias the mesh
+        # the geometry must survive ordinary use of the grid: location variables are requested and edited in place
+        # (closing the ends of a velocity field, shifting coordinates), terms are built - then everything is re-read
+        if not [f for f in res["findings"] if "theta_linear" not in f["key"]] and max(s["shape"]) <= 3 and not s.get("scale"):
+            try:
+                for loc in (pf.faceLocations(mesh), pf.cellLocations(mesh)):
+                    for v in (loc if isinstance(loc, (tuple, list)) else [loc]):
+                        if isinstance(v, pf.FaceVariable):
+                            for c in U.COMP:
+                                a = getattr(v, c)
+                                if np.size(a):
+                                    a[...] = a * 2.0 + 1.0
+                        else:
+                            v.value[...] = np.asarray(v.value) * 2.0 + 1.0
+                            v.apply_BCs()
+                pf.diffusionTerm(pf.FaceVariable(mesh, 1.0))
+                V = mesh.cellvolume
+                if getattr(V, "flags", None) is not None and V.flags.writeable and not np.shares_memory(V, np.asarray(mesh.cellsize._x)):
+                    V[...] = 0.0            # a freshly computed volume array may be edited freely
+            except Exception as e:  # noqa: BLE001
+                res["findings"].append({"key": "C10:use_exception:%s" % s["cls"], "msg": "%s: using the grid raises %r" % (U.spec_id(s), e), "detail": {}})
+            n0 = len(res["findings"])
+            _check_mesh(s["cls"], mesh, fc, res, U.spec_id(s) + " after in-place edits of faceLocations/cellLocations results")
+            # (the recorded SphericalGrid3D volume finding is reported once, by the first pass)
+            res["findings"][n0:] = [f for f in res["findings"][n0:] if "theta_linear" not in f["key"]]
+            for f in res["findings"][n0:]:
+                f["key"] = f["key"].replace("C10:", "C10:after_use:", 1)
         res["sample"] = {"grid": U.spec_id(s), "faces": [f.tolist() for f in fc]}
     elif k == "NL":
         cls = case["cls"]
